@@ -3,6 +3,7 @@
 
 //#include <igris/compiler.h>
 #include <igris/compiler.h>
+#include <igris/util/member.h>
 
 struct hlist_node
 {
@@ -61,8 +62,14 @@ __END_DECLS
 #define hlist_for_each(pos, head)                                              \
     for (pos = (head)->first; pos != 0; pos = pos->next)
 
+/** &node --> &entry; NULL --> NULL (the end of a hlist is a null link) */
+#define hlist_entry_or_null(ptr, type, member)                                 \
+    mcast_out_or_null(ptr, type, member)
+
 #define hlist_for_each_entry(pos, head, member)                                \
-    for (pos = hlist_first_entry(head, __typeof__(*pos), member);              \
-         &pos->member != 0; pos = hlist_next_entry(pos, member))
+    for (pos = hlist_entry_or_null((head)->first, __typeof__(*pos), member);   \
+         pos != 0;                                                             \
+         pos = hlist_entry_or_null((pos)->member.next, __typeof__(*pos),       \
+                                   member))
 
 #endif
